@@ -59,7 +59,7 @@ package keygen
 // ---- start function (C20)
 //@ func StartKeygenCommon$1
 // (C09) the session tag is derived under this protocol's OWN identifier (pairwise distinct across all start functions)
-//@   assert_at[C09] NewSession "helper, err := round.NewSession(info, sessionID, nil)": arg0.ProtocolID == ite(taproot, "frost/keygen-threshold-taproot", "frost/keygen-threshold") && arg0.FinalRoundNumber == 3
+//@   assert_at[C09] NewSession "helper, err := round.NewSession(info, sessionID, nil)": arg0.ProtocolID == ite(old(privateShare) != nil && old(publicKey) != nil, ite(taproot, "frost/refresh-threshold-taproot", "frost/refresh-threshold"), ite(taproot, "frost/keygen-threshold-taproot", "frost/keygen-threshold")) && arg0.FinalRoundNumber == 3
 //@   nopanic[C20]
 //@   requires group != nil
 //@   requires forall(k, party.ID, indom(verificationShares, k) ==> verificationShares[k] != nil)
